@@ -86,3 +86,8 @@ func (r *Rng) Perm(n int) []int {
 	}
 	return p
 }
+
+// PickI2 picks one of the int slices (a copy).
+func PickI2(r *Rng, xs [][]int) []int {
+	return append([]int(nil), xs[r.Intn(len(xs))]...)
+}
